@@ -54,7 +54,7 @@ func RunPlan(p Plan, finish func(r *Runner) error) (res Result, err error) {
 				sfs.trace = func(f string, a ...interface{}) { r.Ev.trace(f, a...) }
 			}
 			defer sfs.on.Store(false)
-			defer func() { r.C["sched-manifest-sync-holds"] += int(sfs.holds.Load()) }()
+			defer func() { r.C["sched-holds"] += int(sfs.holds.Load()) }()
 		}
 		if sfs != nil {
 			defer func() { r.C["sched-pauses"] += int(sfs.cnt.Load()) }()
